@@ -75,20 +75,32 @@ func (list *List) RPush(elems []string) int {
 }
 
 func (list *List) Range(start int, stop int) []string {
+	start, stop, ok := clampRange(len(list.elements), start, stop)
+	if !ok {
+		return []string{}
+	}
+	return append([]string{}, list.elements[start:stop+1]...)
+}
+
+// clampRange normalizes a start/stop index pair for a sequence of the given length:
+// negative indexes count from the end and the range is clamped to the sequence.
+func clampRange(length int, start int, stop int) (int, int, bool) {
 	if start < 0 {
-		start = len(list.elements) + start
+		start = length + start
 	}
 	if stop < 0 {
-		stop = len(list.elements) + stop
+		stop = length + stop
 	}
-	elems := []string{}
-	for n := start; n <= stop; n++ {
-		if (n < 0) || ((len(list.elements) - 1) < n) {
-			continue
-		}
-		elems = append(elems, list.elements[n])
+	if start < 0 {
+		start = 0
 	}
-	return elems
+	if length <= stop {
+		stop = length - 1
+	}
+	if stop < start || length <= start {
+		return 0, 0, false
+	}
+	return start, stop, true
 }
 
 func (list *List) Index(idx int) (string, bool) {
@@ -130,6 +142,11 @@ func (server *Server) pop(conn *redis.Conn, key string, count int, isLPop bool) 
 		elems, ok = list.LPop(count)
 	} else {
 		elems, ok = list.RPop(count)
+	}
+
+	// A list that became empty is removed, like every emptied container.
+	if list.Len() == 0 {
+		db.RemoveRecord(key)
 	}
 
 	if !ok || len(elems) == 0 {
@@ -201,9 +218,13 @@ func (server *Server) LRange(conn *redis.Conn, key string, start int, stop int) 
 		return nil, err
 	}
 
-	_, list, err := db.GetListRecord(key)
+	// Reading a missing key does not create it.
+	list, ok, err := db.LookupListRecord(key)
 	if err != nil {
 		return nil, err
+	}
+	if !ok {
+		return redis.NewArrayMessage(), nil
 	}
 
 	elems := list.Range(start, stop)
@@ -222,9 +243,12 @@ func (server *Server) LIndex(conn *redis.Conn, key string, idx int) (*redis.Mess
 		return nil, err
 	}
 
-	_, list, err := db.GetListRecord(key)
+	list, ok, err := db.LookupListRecord(key)
 	if err != nil {
 		return nil, err
+	}
+	if !ok {
+		return redis.NewNilMessage(), nil
 	}
 
 	elem, ok := list.Index(idx)
@@ -241,9 +265,12 @@ func (server *Server) LLen(conn *redis.Conn, key string) (*redis.Message, error)
 		return nil, err
 	}
 
-	_, list, err := db.GetListRecord(key)
+	list, ok, err := db.LookupListRecord(key)
 	if err != nil {
 		return nil, err
+	}
+	if !ok {
+		return redis.NewIntegerMessage(0), nil
 	}
 
 	return redis.NewIntegerMessage(list.Len()), nil
